@@ -118,12 +118,13 @@ func (c *DefaultMatcher) Match(args []reflect.Value) bool {
 	}
 	if c.isVariadic {
 		// 可变参数需要展开参数数组
+		// 只展开最后一个(可变)参数, 前面的固定参数保持原样
 		expandArgs := make([]reflect.Value, 0)
-		for _, v := range args {
-			rv := reflect.ValueOf(v.Interface())
-			for i := 0; i < rv.Len(); i++ {
-				expandArgs = append(expandArgs, rv.Index(i))
-			}
+		last := len(args) - 1
+		expandArgs = append(expandArgs, args[:last]...)
+		rv := reflect.ValueOf(args[last].Interface())
+		for i := 0; i < rv.Len(); i++ {
+			expandArgs = append(expandArgs, rv.Index(i))
 		}
 		args = expandArgs
 	}
